@@ -176,7 +176,7 @@ pub fn rand_settings(rng: &mut Rng, reg: &PortableRegistry, cfg: &SetCfg) -> Set
     let mut s = SettingsSpec::default();
     let paths = item_paths(reg);
     if cfg.switches {
-        s.root = rng.pick(&["types", "root", "runtime_types", "t"]).to_string();
+        s.root = rng.pick(&["types", "root", "runtime_types", "tys"]).to_string();
         s.docs = rng.chance(1, 2);
         s.codec = !rng.chance(1, 4);
         s.alloc = match rng.below(3) {
